@@ -172,6 +172,8 @@ def check_form_on_impl(cfg, res, fs, fr, orc):
         if (D > 0).any():
             i, j = [int(x) for x in np.unravel_index(np.argmax(D), D.shape)]
             kind = 'lost-entry' if H[i, j] == 0.0 else 'entry'
+            if kind == 'lost-entry' and cfg['disparity'] is not None and abs(lev_of[i] - lev_of[j]) > cfg['disparity']:
+                kind = 'disparity-window'      # interaction across more levels than the disparity of the space
             return (kind, 'entry (%d,%d) [levels %d,%d] of the HB matrix is %r; the form applied to the two basis functions with the '
                           'quadrature of level %d gives %r' % (i, j, lev_of[i], lev_of[j], float(H[i, j]), max(lev_of[i], lev_of[j]), float(E[i, j])))
         # Galerkin projection of the finest level for polynomial integrands
@@ -486,7 +488,9 @@ def run(ctx):
         'the level-k tensor-product matrices, load vectors and 1-D prolongators are inputs of the model (arbitrary data in the theorems; '
         'in the tie the implementation\'s own full level assemblies, floats read as exact dyadic numbers)',
         'tie bound: |impl - model| <= 2^%d * sum|terms| per entry (derivation in harness/props/c03.py); integer outputs exact' % GAMMA[1],
-        'repaired behaviour modelled for HSpace(bdspecs=None) (fixes/C03-default-bdspecs.patch)',
+        'repaired behaviour modelled for HSpace(bdspecs=None) (fixes/C03-default-bdspecs.patch), for blocks with explicitly stored '
+        'zeros (fixes/C03-insert-block-stored-zeros.patch) and for the level window of the assembly (every coarser level instead of '
+        'the disparity window, fixes/C03-assembly-disparity-window.patch; window_sufficient_old_refuted)',
         'the link between the sparse-matrix program and the entry form of the blocks (blk_entry, the object of hassemble_entry_partial) '
         'is a per-case exact comparison on sampled positions (a test, not a theorem)',
         'case files carry binary64 literals as PrimFloat constants converted exactly by Prim2SF (no float arithmetic in Coq)',
